@@ -26,6 +26,10 @@ def canon_view(data):
     try:
         if data[:3] == b"\xef\xbb\xbf":
             data = data[3:]
+        # the XML declaration and comments are outside the canonical form: drop them before parsing so that damage confined
+        # to them (which a tolerant parser ignores) does not make the reference reader stricter than the format
+        data = re.sub(rb"\A\s*<\?xml[^>]*\?>", b"", data, count=1)
+        data = re.sub(rb"<!-.*?-->", b"", data, flags=re.S)      # "<!-" can only open a comment
         root = ET.fromstring(data)
         _norm_b64(root)
         txt = ET.tostring(root, encoding="unicode")
